@@ -4,6 +4,7 @@
   result; `_send` repeating a request once after a notInTimeWindow report).
 -/
 import Snmp.Model.Disco
+import Snmp.Gen.Facts
 namespace Snmp.Props.C12
 open Snmp.Disco
 
@@ -250,6 +251,21 @@ theorem C12_slow_discovery_in_window (lat : Nat) (ctx : Bytes) (s : St) : opOk (
       refine ⟨c.engineId, (if ctx == [] then c.engineId else ctx), c.boots, c.time + (s.now - c.stamp) / 10, ?_⟩
       simp only [List.getLast?_singleton, Option.some.injEq]
       simpa [sendWith] using hiw
+
+
+/-- **The engine time sent, generated from `V3MPM.encode`.**  The expression the code puts into a
+    request (`self.disco.authoritative_engine_time + int(time.monotonic() - self.disco_timestamp)`,
+    translated by `tools/extract.py` over instants in tenths of a second) is the one the model's
+    `sendWith` uses: the cached engine time plus the whole seconds elapsed since the stamp. -/
+theorem C12_engine_time_rule (a : Agent) (now : Nat) (ctx : Bytes) (c : Cached) (h : c.stamp ≤ now) :
+    ∃ e x b t iw, (sendWith a now ctx c).1 = .req e x b t iw ∧ (t : Int) = Snmp.Gen.engineTimeSent c.time now c.stamp := by
+  refine ⟨_, _, _, _, _, rfl, ?_⟩
+  unfold Snmp.Gen.engineTimeSent
+  omega
+
+/-- … and the time stamp of the discovery data is read after the discovery exchange has returned
+    (statement order in `V3MPM.encode`, generated): the assumption `requestSlow` is built on. -/
+theorem C12_stamp_after_discovery : Snmp.Gen.stampAfterDiscovery = true := by decide
 
 /-- … in particular after every history starting from a fresh client -/
 theorem C12_in_window_after_any_history (ctx eid : Bytes) (boots start : Nat) (evs : List Ev) :
